@@ -1429,7 +1429,24 @@ class Engine:
             # typing subscripts (List[int]) in casts
             return base
         k = self.eval(e.slice, st)
+        if isinstance(base.kind, KDict) and base.kind.default is not None and not self.spec_mode:
+            # defaultdict: reading a missing key inserts the default
+            ops = DictOps(base.kind)
+            kk = coerce(k, base.kind.key)
+            dv = self.default_value(base.kind)
+            has = ops.contains(base.term, kk.term)
+            newd = V(base.kind, z3.If(has, base.term, ops.set(base.term, kk.term, dv.term)))
+            self.write_back(e.value, newd, st)
+            return self.wf(st, V(base.kind.val, z3.If(has, ops.get(base.term, kk.term), dv.term)))
         return self.getitem(base, k, st)
+
+    def default_value(self, kind):
+        d = kind.default
+        if d == 'none':
+            return coerce(NONE, kind.val)
+        if isinstance(d, int):
+            return coerce(IntV(d), kind.val)
+        raise Unsupported('defaultdict factory')
 
     def getitem(self, base: V, k: V, st):
         kd = base.kind
@@ -1643,8 +1660,14 @@ class Engine:
             return RealV(self.fop('div', aR, bR))
         if op in ('FloorDiv', 'Mod'):
             if not static_int:
-                if static_real or True:
-                    raise Unsupported(f'{op} on non-integers')
+                # float (or dynamically typed) operands: the float result is an uninterpreted function
+                self.require(st, bR != 0, 'ZeroDivisionError', op)
+                fname = 'fmod' if op == 'Mod' else 'ffloordiv'
+                f = self.uf_cache.setdefault(fname, z3.Function(fname, z3.RealSort(), z3.RealSort(), z3.RealSort()))
+                if static_real or aI is None or bI is None:
+                    return RealV(f(aR, bR))
+                q, r = self.divmod_witness(aI, bI, st)
+                return DynV(z3.If(both_int, DynS.int(r if op == 'Mod' else q), DynS.real(f(aR, bR))))
             self.require(st, bI != 0, 'ZeroDivisionError', op)
             if not z3.is_int_value(z3.simplify(bI)):
                 # symbolic divisor: a == b*q + r with the sign rule of Python's floor division
